@@ -336,7 +336,8 @@ def _shards(nadv):
 
 
 HARNESSES = [
-    H(loop3, shards=_shards(3), timeout={"quick": 100, "thorough": 600}),
+    H(loop3, shards=_shards(3), timeout={"quick": 100, "thorough": 600}, tiers=("quick",),
+      note="subsumed by loop5 in the thorough tier (an advance of 0 is a no-op)"),
     H(loop5, shards=_shards(5), timeout={"quick": 60, "thorough": 1500}, tiers=("thorough",)),
 ]
 
